@@ -16,6 +16,21 @@ CLAIMED = {
  "C08": ("decision-table extraction (dispatchFrame classifier, responders, sendReject, runSelectProcedure, checkSessionID) compared with an E37 oracle on every cell; byte-map (layout) extraction of the control-message factories; accept-loop value-flow",
          "Decides the complete frame-class × state response table of the HSMS-SS receiver and responders, the reject reason/byte-2 selection and the byte layout of every control message the library builds, for all cells of the finite partition the code's comparisons induce. Frame sequences are covered only as (class × logical state); wire ordering of queued responses is not decided.",
          "§4 C08"),
+ "C06": ("decision table of sendWaitReply (register/deregister/write order, four-way wait outcomes, timer after write) and of DeliverOwnedFrame/RouteData (exactly one recipient); who-may-send on reply channels; generator writer enumeration; nil-error return analysis of the session send APIs",
+         "Decides the structural clauses of reply correlation for every path: the registration key is the written message's own system bytes and is released on every exit, the wait can only end in the five stated outcomes, only secondaries are offered to the registry, a reply channel has a single non-blocking sender and is never closed, each inbound message has exactly one recipient, and generator values come from one Add(1) counter. Peer histories and timing are not decided.",
+         "§4 C06"),
+ "C09": ("epoch-pinning enumeration (loads of the current generation per function), value-flow of the socket from the epoch parameter to the transport call, who-may-write on per-generation fields, select-case tables of SendAsync/transport.Write, teardown order, reconnect-loop iteration table",
+         "Decides that nothing in the source can carry a frame or a reply across generations: one pinned epoch per function, queue/registry/context created only by newEpoch, writes bound to the pinned epoch's socket under its lock, transports writing only to the socket they are handed, waiters released by the pinned generation's context, and generations serialised by the reconnect loop. Drop instants versus in-flight sends (schedules) are not decided.",
+         "§4 C09"),
+ "C10": ("goroutine launch/join matching (Add-before-go, defer Done, Wait sites), bounded-join recognition, lock pairing and held-region scan for blocking operations, close-once classification of every close(), Open/Close guard path analysis, panic-surface enumeration",
+         "Decides for every goroutine launch, WaitGroup.Wait, mutex acquisition, close() and panic site in the connection/transport packages that it follows the join / bounded-teardown / once-guard discipline that Close's guarantees rest on, and that the double-open and never-opened guards precede every side effect. Wall-clock bounds and actual leak freedom over histories are not decided.",
+         "§4 C10"),
+ "C11": ("decision tables of nextBackoffDelay, WithReconnectBackoff, react, one connectLoop iteration and one recvLoop iteration; dominance of TCPDown on write errors; call-site enumeration of the reconnect counter",
+         "Decides the backoff arithmetic's branch structure (cap at T5, never ≤ 0, initial value, advance only through nextBackoffDelay), that every involuntary failure funnels into TCPDown exactly once unless teardown already owns the generation, that the reaction starts the reconnect loop before teardown iff not shut down, and the fence/publish/retry shape of the loop. Actual re-establishment against a peer and real-time delays are not decided.",
+         "§4 C11"),
+ "C20": ("who-may-call enumeration of every metric helper, ±1 body check, gauge inc/defer-dec pairing with dominance conditions, path-exact counting of incDataMsgSend, per-outcome counter decision tables of sendWaitReply/sendNoReply/drainSendCh/isCountedSendErr",
+         "Decides that each counter/gauge is modified only at its documented chokepoint by exactly ±1, that gauges are paired with a deferred decrement on every exit, that the sent counter is bumped on exactly the paths where the transport accepted a data frame, and the documented counter set for every send outcome cell. Agreement with the peer's own counts over histories is not decided.",
+         "§4 C20"),
  "C19": ("decision tables of the two pure linktest reducers and of one full iteration of the probe loop (loop-carried values included) against an oracle written from the suppression rules; option-validation tables",
          "Decides every ordering cell of the failure reducer and the pre-disconnect re-check, and the complete per-iteration behaviour of the probe loop: skip rules, probe, success reset, failure accounting with argument roles and fresh re-reads, threshold comparison, TCPDown, and what is carried to the next iteration. Real-time durations and accepted stamp races are not decided.",
          "§4 C19"),
